@@ -621,7 +621,8 @@ def run(ctx, lean):
     # (c)(d)(e): the property's own statement on the real object, quick budget
     before = len(ctx.failing)
     stats_ = oracles(ctx, models, ctx.rng('oracle'), ctx.nprng('oracle'), nbatch=2, deep=False)
-    new = ctx.failing[before:]
+    known = {k.get('class') for k in vc.load_known().get('findings', []) if k.get('property') == ctx.prop}
+    new = [f for f in ctx.failing[before:] if f['class'] not in known]     # recorded findings do not break the obligation
     ctx.ob('corr:real-object[container/permutation/batch-split equalities, log, cdf range+monotone, independent MVN]',
            not new, 'tie', (f'{len(new)} failing inputs, first: ' + str({k: new[0][k] for k in ("class", "observed")})[:400])
            if new else f'{stats_} checks')
